@@ -262,9 +262,10 @@ def merge(out, sub):
 
 # ----------------------------------------------------------------------------- adaptive generation
 
-def gen_next(rng, live, cfg):
+def gen_next(rng, live, cfg, prev=None, focus=None):
     """next operation chosen by looking at the live model, so that most operations are applicable;
-    the chosen operations are recorded and replayed verbatim"""
+    the chosen operations are recorded and replayed verbatim; `prev` = the operations so far
+    (earlier queries are repeated often, so that edits are followed by re-evaluation)"""
     w = cfg["weights"]
     kinds = list(w)
     spaces = W.all_spaces(live.m)
@@ -273,6 +274,11 @@ def gen_next(rng, live, cfg):
         return ["new_space", "-", rng.choice(W.TOP), []]
     k = rng.choices(kinds, [w[x] for x in kinds])[0]
     path, s = rng.choice(spaces)
+    if focus is not None and rng.random() < 0.8:
+        # a focused history works mostly on the spaces that already have members
+        rich = [(p, sp) for p, sp in spaces if len(sp.cells) >= focus]
+        if rich:
+            path, s = rng.choice(rich)
     cells = list(s.cells)
     defined = [c for c in cells if not s.cells[c]._is_derived()]
     derived = [c for c in cells if s.cells[c]._is_derived()]
@@ -292,6 +298,8 @@ def gen_next(rng, live, cfg):
     if k == "new_cells":
         free = [n for n in W.CELLS if n not in cells]
         nm = rng.choice(free) if free and rng.random() < 0.85 else rng.choice(W.CELLS)
+        if rng.random() < cfg.get("cross_names", 0.0):
+            nm = rng.choice(W.REFS + W.CHILD)          # a name other spaces use for another kind
         return ["new_cells", path, nm, W.gen_formula(rng, paths, s)]
     if k == "set_formula":
         if not cells:
@@ -316,7 +324,10 @@ def gen_next(rng, live, cfg):
         if db:
             return ["remove_bases", path, [rng.choice(db)]]
     if k == "set_ref":
-        return ["set_ref", path, rng.choice(W.REFS), rng.randint(0, 9)]
+        nm = rng.choice(W.REFS)
+        if rng.random() < cfg.get("cross_names", 0.0):
+            nm = rng.choice(W.CELLS + W.CHILD)
+        return ["set_ref", path, nm, rng.randint(0, 9)]
     if k == "del_ref":
         if own_refs:
             return ["del_ref", path, rng.choice(own_refs)]
@@ -334,6 +345,10 @@ def gen_next(rng, live, cfg):
         st = {"spaces": {p: {"cells": set(sp.cells), "refs": set(sp._own_refs),
                              "bases": [W.rel(live.m, b) for b in sp._direct_bases]} for p, sp in spaces}}
         return gen_bad(rng, st, paths)
+    if prev and rng.random() < 0.5:
+        earlier = [o for o in prev if o[0] == "eval"]
+        if earlier:
+            return list(rng.choice(earlier))
     if cells:
         return ["eval", path, rng.choice(cells), rng.choice(W.QUERY_ARGS)]
     return ["new_cells", path, rng.choice(W.CELLS), W.gen_formula(rng, paths, s)]
@@ -354,8 +369,10 @@ def run_one(ops, out, stats, hooks, cfg, rng=None, n_ops=0, seed_ops=None):
     close_all()
     live = W.Live("M")
     hooks.nontrivial = False
+    focus = (2 if rng.random() < 0.5 else None) if rng is not None else None
     if rng is not None and not ops:
         ops += [list(o) for o in (seed_ops if seed_ops is not None else [["set_mref", "u", 11], ["set_mref", "r", 12]])]
+        ops += motif(rng)
     try:
         hooks.start(live, stats)
         k = 0
@@ -363,7 +380,7 @@ def run_one(ops, out, stats, hooks, cfg, rng=None, n_ops=0, seed_ops=None):
             if k >= len(ops):
                 if rng is None or k >= n_ops:
                     break
-                ops.append(gen_next(rng, live, cfg))
+                ops.append(gen_next(rng, live, cfg, ops, focus=focus))
             op = ops[k]
             hooks.before(live, ops, k, op, stats)
             if op[0] == "evalall":
@@ -426,3 +443,75 @@ def fresh_replay(ops, upto, name="F"):
         if op[0] in EDIT_KINDS:
             live.apply(op)
     return live
+
+
+# ----------------------------------------------------------------------------- motif prefixes
+
+def F(i, k=1, a="f", r="r", c="X"):
+    return (i, k, a, r, c)
+
+
+MOTIFS = [
+    [],
+    # diamond with a member defined at the top and overridden on one side
+    [["new_space", "-", "A", []], ["new_cells", "A", "f", F(0, 1)], ["set_ref", "A", "s", 1],
+     ["new_space", "-", "B", ["A"]], ["new_space", "-", "C", ["A"]], ["set_formula", "C", "f", F(0, 2)],
+     ["new_space", "-", "D", ["B", "C"]]],
+    # call chain f -> g -> h -> k in one space
+    [["new_space", "-", "A", []], ["set_ref", "A", "s", 2], ["new_cells", "A", "k", F(2, 1, "k", "s")],
+     ["new_cells", "A", "h", F(1, 1, "k")], ["new_cells", "A", "g", F(1, 2, "h")], ["new_cells", "A", "f", F(1, 3, "g")]],
+    # a child space with two bases that both define g; the parent calls through the child
+    [["new_space", "-", "A", []], ["new_cells", "A", "g", F(0, 1)], ["new_space", "-", "B", []],
+     ["new_cells", "B", "g", F(0, 5)], ["new_space", "-", "C", []], ["new_space", "C", "X", ["A", "B"]],
+     ["new_cells", "C", "f", F(4, 1, "g", "r", "X")]],
+    # a reference defined in a base, overridden in one sub, derived in another; read by attribute path
+    [["new_space", "-", "A", []], ["set_ref", "A", "t", 1], ["new_space", "-", "B", ["A"]],
+     ["new_space", "-", "C", ["A"]], ["set_ref", "B", "t", 5], ["new_space", "-", "D", []],
+     ["new_space", "D", "X", ["C"]], ["new_cells", "D", "f", F(3, 1, "f", "t", "X")]],
+    # chain of three spaces with overrides
+    [["new_space", "-", "A", []], ["new_cells", "A", "f", F(0, 1)], ["new_cells", "A", "g", F(1, 1, "f")],
+     ["new_space", "-", "B", ["A"]], ["new_space", "-", "C", ["B"]], ["set_formula", "B", "f", F(0, 2)]],
+]
+
+
+def motif(rng, weights=None):
+    m = rng.choices(MOTIFS, weights)[0] if weights else rng.choice(MOTIFS)
+    return [list(o) for o in m]
+
+
+def single_edits(live):
+    """every single structural/definition edit applicable to the live model (small-scope
+    exhaustive enumeration: each is tried after the same prefix)"""
+    edits = []
+    spaces = W.all_spaces(live.m)
+    paths = [p for p, _ in spaces]
+    n = 0
+    for path, s in spaces:
+        for cn, c in s.cells.items():
+            n += 1
+            edits.append(["set_formula", path, cn, F(0, 7 + n % 3)])
+            edits.append(["set_formula", path, cn, F(2, 1, cn, "s" if "s" in s.refs else "r")])
+            if not c._is_derived():
+                edits.append(["del_cells", path, cn])
+                edits.append(["rename_cells", path, cn, "k" if cn != "k" else "h"])
+            edits.append(["set_value", path, cn, 1, 40 + n])
+        for rn in s._own_refs:
+            if not s._impl.own_refs[rn].is_derived():
+                edits.append(["set_ref", path, rn, 30 + n])
+                edits.append(["del_ref", path, rn])
+            else:
+                edits.append(["set_ref", path, rn, 35 + n])       # override a derived reference
+        for rn in ("r", "s", "t"):
+            if rn not in s._own_refs:
+                edits.append(["set_ref", path, rn, 50])
+        for b in s._direct_bases:
+            edits.append(["remove_bases", path, [W.rel(live.m, b)]])
+        for other in paths:
+            if other != path and other not in [W.rel(live.m, b) for b in s._direct_bases]:
+                edits.append(["add_bases", path, [other]])
+        edits.append(["del_space", path])
+        free = [c for c in W.CELLS if c not in s.cells]
+        if free:
+            edits.append(["new_cells", path, free[0], F(0, 9)])
+    edits += [["set_mref", "u", 60], ["set_mref", "r", 61], ["del_mref", "u"]]
+    return edits
